@@ -1607,7 +1607,12 @@ func (p *CodeBuilder) IncDec(op token.Token, src ...ast.Node) *CodeBuilder {
 	}
 	pkg := p.pkg
 	arg := p.stk.Pop()
-	if t, ok := arg.Type.(*refType).typ.(*types.Named); ok {
+	ref, ok := arg.Type.(*refType)
+	if !ok {
+		code, pos, end := p.loadExpr(arg.Src)
+		p.panicCodeErrorf(pos, end, "cannot assign to %s (neither addressable nor a map index expression)", code)
+	}
+	if t, ok := ref.typ.(*types.Named); ok {
 		op := lookupMethod(t, name)
 		if op != nil {
 			fn := &internal.Elem{
@@ -1677,7 +1682,12 @@ func callAssignOp(pkg *Package, tok token.Token, args []*internal.Elem, src []as
 	if debugInstr {
 		log.Println("AssignOp", tok, name)
 	}
-	if t, ok := args[0].Type.(*refType).typ.(*types.Named); ok {
+	ref, ok := args[0].Type.(*refType)
+	if !ok {
+		code, pos, end := pkg.cb.loadExpr(args[0].Src)
+		pkg.cb.panicCodeErrorf(pos, end, "cannot assign to %s (neither addressable nor a map index expression)", code)
+	}
+	if t, ok := ref.typ.(*types.Named); ok {
 		op := lookupMethod(t, name)
 		if op != nil {
 			fn := &internal.Elem{
@@ -1693,7 +1703,7 @@ func callAssignOp(pkg *Package, tok token.Token, args []*internal.Elem, src []as
 	}
 	op := pkg.builtin.Ref(name)
 	if tok == token.QUO_ASSIGN || tok == token.REM_ASSIGN {
-		checkDivisionByZero(&pkg.cb, &internal.Elem{Val: args[0].Val, Type: args[0].Type.(*refType).typ}, args[1])
+		checkDivisionByZero(&pkg.cb, &internal.Elem{Val: args[0].Val, Type: ref.typ}, args[1])
 	}
 	fn := &internal.Elem{
 		Val: ident(op.Name()), Type: op.Type(),
